@@ -81,7 +81,33 @@ func shapes(thorough bool) []*prog.Shape {
 			add(c)
 		}
 	}
+	// name reuse: every shape above with a group and at least two leaves,
+	// again with the leaves of every struct named v0, v1, ... (the same leaf
+	// name with different types under different parents), and once more with
+	// the first leaf of a struct named after a group declared elsewhere
+	base := len(out)
+	for _, s := range out[:base] {
+		if s.Leaves() < 2 || s.Leaves() == len(s.Fields) {
+			continue
+		}
+		for v := 0; v < 2; v++ {
+			c, _ := prog.ParseSig(s.Sig())
+			schemeOf[c] = -1 - v
+			if v == 1 && source("x", c) == source("x", out[len(out)-1]) {
+				continue // no group to borrow a name from
+			}
+			out = append(out, c)
+		}
+	}
 	return out
+}
+
+// label names a program: the shape signature, plus the naming variant.
+func label(s *prog.Shape) string {
+	if sc := schemeOf[s]; sc < 0 {
+		return fmt.Sprintf("%s names=dup%d", s.Sig(), -1-sc)
+	}
+	return s.Sig()
 }
 
 func hasRepeated(fs []*prog.Field) bool {
@@ -108,8 +134,14 @@ func assign(fs []*prog.Field, k *int) {
 // are l<n>, groups g<n> (unique), Go names are the title-cased column names.
 // nameFor renders column names in one of several styles (the regenerated
 // struct derives Go identifiers and nested type names from them).
+//
+// Negative schemes are the name-reuse variants (only groups have to be
+// uniquely named): -1 names a leaf after its position in its parent ("v0",
+// "v1", ... in every struct, with different types); -2 also names the first
+// leaf of every struct after a group declared elsewhere in the shape.
+
 func nameFor(scheme int, leaf bool, n int) string {
-	switch scheme % 3 {
+	switch (scheme%3 + 3) % 3 {
 	case 1:
 		if leaf {
 			return fmt.Sprintf("my_leaf_%d", n)
@@ -142,14 +174,25 @@ func source(pkg string, s *prog.Shape) string {
 			fs   []*prog.Field
 		}
 		var later []pending
-		for _, f := range fs {
+		for idx, f := range fs {
 			n++
 			prefix := []string{"", "*", "[]"}[f.Rep]
 			if f.Leaf {
-				fmt.Fprintf(&sb, "\tL%d %s%s `parquet:\"%s\"`\n", n, prefix, f.Type, nameFor(scheme, true, n))
+				col := nameFor(scheme, true, n)
+				if scheme < 0 {
+					col = fmt.Sprintf("v%d", idx)
+					if other := otherGroup(s, name); scheme == -2 && idx == 0 && other != "" {
+						col = other
+					}
+				}
+				fmt.Fprintf(&sb, "\tL%d %s%s `parquet:\"%s\"`\n", n, prefix, f.Type, col)
 			} else {
 				tn := fmt.Sprintf("G%d", n)
-				fmt.Fprintf(&sb, "\t%s %s%s `parquet:\"%s\"`\n", tn, prefix, tn, nameFor(scheme, false, n))
+				gcol := nameFor(scheme, false, n)
+				if scheme < 0 {
+					gcol = fmt.Sprintf("g%d", n)
+				}
+				fmt.Fprintf(&sb, "\t%s %s%s `parquet:\"%s\"`\n", tn, prefix, tn, gcol)
 				later = append(later, pending{tn, f.Children})
 			}
 		}
@@ -161,6 +204,38 @@ func source(pkg string, s *prog.Shape) string {
 	}
 	rec("T", s.Fields)
 	return "package " + pkg + "\n\n" + strings.Join(decls, "\n")
+}
+
+// otherGroup returns the column name of a group of the shape that is neither
+// the struct named self nor one of its siblings' ... (any group declared in a
+// different struct than self's own fields): the first group in pre-order whose
+// Go type name differs from self and that is not a direct field of self.
+func otherGroup(s *prog.Shape, self string) string {
+	n := 0
+	res := ""
+	var rec func(owner string, fs []*prog.Field)
+	rec = func(owner string, fs []*prog.Field) {
+		type pend struct {
+			name string
+			fs   []*prog.Field
+		}
+		var later []pend
+		for _, f := range fs {
+			n++
+			if !f.Leaf {
+				tn := fmt.Sprintf("G%d", n)
+				if res == "" && tn != self && owner != self {
+					res = fmt.Sprintf("g%d", n)
+				}
+				later = append(later, pend{tn, f.Children})
+			}
+		}
+		for _, p := range later {
+			rec(p.name, p.fs)
+		}
+	}
+	rec("T", s.Fields)
+	return res
 }
 
 type rcase struct {
@@ -248,7 +323,7 @@ func run(c *fw.Ctx) {
 	}
 	ss := shapes(c.Thorough())
 	c.Bound("programs", len(ss))
-	c.Bound("grammar", "no repeated fields; leaves {int32,int64,float32,float64,bool,string} x {required, optional}; groups {required, optional} with unique names; <=3 fields per struct; quick depth<=2 & <=2 leaves, thorough depth<=3 & <=3 leaves; leaf types rotate by position (1 / 2 rotations) plus every type in every single-leaf context")
+	c.Bound("grammar", "no repeated fields; leaves {int32,int64,float32,float64,bool,string} x {required, optional}; groups {required, optional} with unique names, leaf names unique per file and (for every shape with a group and >= 2 leaves) reused across parents with different types / borrowed from a group elsewhere; <=3 fields per struct; quick depth<=2 & <=2 leaves, thorough depth<=3 & <=3 leaves; leaf types rotate by position (1 / 2 rotations) plus every type in every single-leaf context")
 	const per = 90
 	nb := (len(ss) + per - 1) / per
 	for b := 0; b < nb; b++ {
@@ -273,8 +348,9 @@ func run(c *fw.Ctx) {
 		}
 		for i := range r1 {
 			sig := ss[lo+i].Sig()
+			lbl := label(ss[lo+i])
 			c.Count("programs", 1)
-			c.Distinct(sig)
+			c.Distinct(lbl)
 			c.EvalN(r1[i].Evals + 1)
 			if r2[i] == nil {
 				// the source struct's own writer could not produce a file: a C05
@@ -288,14 +364,14 @@ func run(c *fw.Ctx) {
 			// are then not the files the property talks about
 			for _, v := range verdicts(r1[i]) {
 				if strings.HasPrefix(v[0], "base-") {
-					c.Violate("shape="+sig+" class="+v[0], fmt.Sprintf("struct shape %s: the source struct's own writer fails: %s: %s", sig, v[0], v[1]), "regen", rcase{sig, v[0], schemeOf[ss[lo+i]]})
+					c.Violate("shape="+lbl+" class="+v[0], fmt.Sprintf("struct shape %s: the source struct's own writer fails: %s: %s", lbl, v[0], v[1]), "regen", rcase{sig, v[0], schemeOf[ss[lo+i]]})
 				}
 			}
 			if c.WantSample() && i%23 == 2 {
-				c.Sample(map[string]interface{}{"shape": sig, "files_written": r1[i].Evals, "files_read_back": r2[i].Evals})
+				c.Sample(map[string]interface{}{"shape": lbl, "files_written": r1[i].Evals, "files_read_back": r2[i].Evals})
 			}
 			for _, v := range verdicts(*r2[i]) {
-				c.Violate("shape="+sig+" class="+v[0], fmt.Sprintf("struct shape %s: %s: %s", sig, v[0], v[1]), "regen", rcase{sig, v[0], schemeOf[ss[lo+i]]})
+				c.Violate("shape="+lbl+" class="+v[0], fmt.Sprintf("struct shape %s: %s: %s", lbl, v[0], v[1]), "regen", rcase{sig, v[0], schemeOf[ss[lo+i]]})
 			}
 		}
 	}
